@@ -521,6 +521,15 @@ class LowerToIRVisitor(Visitor.DefaultVisitor):
         assert isinstance(left, LinearIR.Value)
         assert isinstance(right, LinearIR.Value)
 
+        if (
+            be.GetOperation() == op.Operation.MUL
+            and left.Type.IsScalar()
+            and (right.Type.IsVector() or right.Type.IsMatrix())
+        ):
+            # scalar * vector and scalar * matrix: multiplying by a scalar is
+            # commutative, so lower them as vector * scalar / matrix * scalar
+            left, right = right, left
+
         if left.Type.IsMatrix() and right.Type.IsMatrix():
             # M <op> M, needs to get lowered per row
             operation = be.GetOperation()
